@@ -209,7 +209,7 @@ def canon_const(a):
     return repr(a)
 
 
-def check_graph_order(cg, Function):
+def check_graph_order(cg, Function, allowed=()):
     """I1: every Function argument of the node at position i is an element of
     the same graph at a position < i (or the node itself)."""
     pos = {}
@@ -224,6 +224,8 @@ def check_graph_order(cg, Function):
         for a in f.args:
             if isinstance(a, Function):
                 p = pos.get(id(a))
+                if p is None and id(a) in allowed:
+                    continue      # a value computed while recording was off: a captured constant
                 if p is None:
                     bad.append('node %d has an argument that is not in this graph' % i)
                 elif p > i:
@@ -249,6 +251,8 @@ class Client(object):
         self.slots = {}
         self.last_out = None      # the objects the last completed forward evaluation returned
         self.last_ybars = None    # the seed objects of the last bare reverse sweep
+        self.frozen_ids = set()   # ids of Function objects created while recording was off
+        self.frozen_keep = []     # (keeps them alive so that the ids stay unique)
 
 
 class Sim(object):
@@ -292,7 +296,7 @@ class Sim(object):
                     what, op, c, i, b, a))
         for cl in self.clients:
             if cl.cg is not None:
-                for msg in check_graph_order(cl.cg, self.F):
+                for msg in check_graph_order(cl.cg, self.F, cl.frozen_ids):
                     bad.append('I1: graph %d: %s' % (cl.idx, msg))
         return bad
 
@@ -347,6 +351,8 @@ class Sim(object):
         c.slots = {}
         c.last_out = None
         c.last_ybars = None
+        c.frozen_ids = set()
+        c.frozen_keep = []
         gc.collect()
 
     # ---- steps -------------------------------------------------------------
@@ -379,6 +385,22 @@ class Sim(object):
         for _ in range(k):
             ins = c.prog['instrs'][c.ip]
             n0 = len(c.cg.functionList)
+            if ins.get('off'):
+                # recording switched off around this one instruction
+                c.cg.trace_off()
+                try:
+                    r = programs.exec_instr(ins, c.regs, self.B)
+                finally:
+                    c.cg.trace_on()
+                c.regs.append(r)
+                if isinstance(r, F):
+                    c.frozen_ids.add(id(r))
+                    c.frozen_keep.append(r)
+                if len(c.cg.functionList) != n0:
+                    inv.append('I3: instruction %d (%s) executed with recording off was recorded' % (c.ip, ins['op']))
+                vals.append({'i': c.ip, 'v': enc(unwrap(r, F))})
+                c.ip += 1
+                continue
             r = programs.exec_instr(ins, c.regs, self.B)
             c.regs.append(r)
             n1 = len(c.cg.functionList)
